@@ -11,7 +11,8 @@ if os.environ.get('PWVERIF_TRACE') == '1':
     import struct
     import threading
 
-    TRACED = {('process.py', '_run'), ('persistent_process.py', '_cleanup')}
+    TRACED = {('process.py', '_run'), ('persistent_process.py', '_cleanup'),
+              ('remote.py', '_run_backend'), ('persistent_remote.py', '_cleanup')}
     state = {'n': 0, 'plan': None, 'log': None}
 
     def parse(name):
@@ -37,11 +38,26 @@ if os.environ.get('PWVERIF_TRACE') == '1':
             with open(state['log'], 'a') as f:
                 f.write(f'{n} {frame.f_code.co_name} {frame.f_lineno}\n')
         act = state['plan'].get(n)
+        if act == 'ATerm':
+            # a graceful terminate REQUEST: it reaches the main thread only through the child's own control thread
+            me = frame.f_locals.get('self')
+            ct = getattr(me, '_ctrl_thread_loc', None) or getattr(me, '_ctrl_thread', None)
+            act = 'AWTE' if (ct is not None and ct.is_alive()) else None
         if act == 'AWTE':
             from pyworkers.worker import WorkerTerminatedError
             me = frame.f_locals.get('self')
             try:
                 me._terminate_req = True      # what the control thread does before raising
+            except Exception:
+                pass
+            try:
+                # remote backend: the local control thread that delivers a terminate ends by itself right afterwards;
+                # stand in for that, or a child interrupted before its release step would be kept alive by a thread
+                # which in reality is already gone
+                ct = getattr(me, '_ctrl_thread_loc', None)
+                if ct is not None and ct.is_alive():
+                    me._ctrl_comms.parent_end.send(None)
+                    ct.join(2)
             except Exception:
                 pass
             raise WorkerTerminatedError()
@@ -50,8 +66,11 @@ if os.environ.get('PWVERIF_TRACE') == '1':
         if act == 'AKillMidSend':
             me = frame.f_locals.get('self')
             try:
-                fd = me._comms.child_end.fileno()
-                os.write(fd, struct.pack('!i', 1000) + b'x' * 10)   # a message cut after 10 of 1000 bytes
+                if frame.f_code.co_filename.endswith('remote.py'):
+                    me._socket.sendall(struct.pack('!I', 1000) + b'x' * 10)   # remote kinds: the data socket to the parent
+                else:
+                    fd = me._comms.child_end.fileno()
+                    os.write(fd, struct.pack('!i', 1000) + b'x' * 10)   # a message cut after 10 of 1000 bytes
             except Exception:
                 pass
             os.kill(os.getpid(), signal.SIGKILL)
